@@ -52,6 +52,38 @@ fn names_upto(len: usize) -> Vec<Vec<u8>> {
     out
 }
 
+/// Relative paths (appended to "/d/") made of components of at most 255 bytes; total lengths up to PATH_MAX - 1.
+fn long_names() -> Vec<Vec<u8>> {
+    let mut out = Vec::new();
+    for sym in name_alphabet() {
+        for mixed in [false, true] {
+            for total in [255usize, 1020, 2040, 4092] {
+                let mut name: Vec<u8> = Vec::new();
+                let mut comp = 0usize;
+                let mut i = 0usize;
+                loop {
+                    let unit: &[u8] = if mixed && i % 2 == 1 { b"a" } else { &sym };
+                    i += 1;
+                    if name.len() + unit.len() > total {
+                        break;
+                    }
+                    if comp + unit.len() > 255 {
+                        if name.len() + 1 + unit.len() > total {
+                            break;
+                        }
+                        name.push(b'/');
+                        comp = 0;
+                    }
+                    name.extend_from_slice(unit);
+                    comp += unit.len();
+                }
+                out.push(name);
+            }
+        }
+    }
+    out
+}
+
 fn path_of(bytes: &[u8]) -> Path {
     Path::from(OsString::from_vec(bytes.to_vec()))
 }
@@ -476,6 +508,15 @@ pub fn main(args: &[String]) {
             }
             st.names += 1;
             roundtrip(&default_header(), &groups_with_name(&name), "name", &name, &mut agg, &mut st, false);
+        }
+        // 1b. long names: every symbol repeated up to the limits of a real file system (components of <= 255
+        // bytes, whole path <= 4095 bytes), pure and alternating with 'a'
+        for name in long_names() {
+            if !mine() {
+                continue;
+            }
+            st.names += 1;
+            roundtrip(&default_header(), &groups_with_name(&name), "long_name", &name, &mut agg, &mut st, false);
         }
         // 2. shapes x lengths x hash sizes
         for shape in [(1usize, 1usize), (1, 2), (2, 2), (3, 1), (0, 0)] {
